@@ -191,7 +191,7 @@ def f43_positions(spec, doc, acc):
 
 def gen_leaf_value(r, ty):
     if ty == 'int':
-        return r.randint(0, 999)
+        return 0 if r.random() < 0.15 else r.randint(0, 999)
     if ty == 'str':
         return r.choice(['', 'a', 'hello', 'x_y', 'Z9'])
     return [r.randint(0, 9) for _ in range(r.choice([0, 1, 3]))]
@@ -421,36 +421,54 @@ def impl_show(res):
 
 # --------------------------------------------------------------------------- classes with key-path fields
 def gen_path_class(r, counter):
+    """class whose fields declare their own keys: key paths, one or more aliases, or plain; any of them may be
+    init=False (then it has a default and is never read from the document)"""
     counter[0] += 1
     used = set()
     tops = [gen_name(r, used) for _ in range(r.choice([1, 2]))]
-    fields = [{'name': gen_name(r, used), 'ty': 'str', 'dflt': 'req', 'path': None}]
+    fields = [{'name': gen_name(r, used), 'ty': 'str', 'dflt': 'req', 'path': None, 'aliases': None, 'init': True}]
     for _ in range(r.randint(1, 4)):
-        ty = r.choice(['int', 'str', 'ints', 'ints', 'dict', 'dict', 'any', 'inst'])
-        f = {'name': gen_name(r, used), 'ty': ty, 'path': [r.choice(tops), gen_name(r, used)],
-             'style': r.choice(['path_field', 'keypath'])}
-        if ty in ('int', 'str'):
+        access = r.choice(['path', 'path', 'alias', 'alias', 'plain'])
+        ty = r.choice(['int', 'str', 'ints', 'dict', 'float', 'bool'] + (['any', 'inst', 'ints', 'dict'] if access == 'path' else []))
+        f = {'name': gen_name(r, used), 'ty': ty, 'path': None, 'aliases': None, 'init': True,
+             'style': r.choice(['path_field', 'keypath']) if access == 'path' else r.choice(['json_field', 'json_key'])}
+        if access == 'path':
+            f['path'] = [r.choice(tops), gen_name(r, used)]
+        elif access == 'alias':
+            f['aliases'] = [gen_name(r, used) for _ in range(r.choice([1, 2, 2, 3]))]
+        if ty in ('int', 'str', 'float', 'bool'):
             f['dflt'] = r.choice(['def', 'def', 'req'])
             if f['dflt'] == 'def':
-                f['default'] = r.randint(0, 9) if ty == 'int' else r.choice(['', 'dv'])
+                f['default'] = {'int': r.randint(1, 9), 'str': r.choice(['dv', 'x']), 'float': 1.5, 'bool': True}[ty]
         else:
             f['dflt'] = 'fac'
+        if f['dflt'] != 'req' and ty not in ('any', 'inst') and r.random() < 0.25:
+            f['init'] = False
         fields.append(f)
     if r.random() < 0.5:
-        fields.append({'name': gen_name(r, used), 'ty': 'ints', 'dflt': 'fac', 'path': None})
+        fields.append({'name': gen_name(r, used), 'ty': 'ints', 'dflt': 'fac', 'path': None, 'aliases': None, 'init': True})
     return {'name': 'P%d' % counter[0], 'fields': fields, 'tops': tops}
 
 
 def path_value(r, ty):
-    return {'int': lambda: r.randint(0, 99), 'str': lambda: r.choice(['a', 'hello']), 'ints': lambda: [r.randint(0, 9)],
-            'dict': lambda: {'k': r.randint(0, 9)}, 'any': lambda: [r.randint(0, 9)], 'inst': lambda: {'k': r.randint(2, 9)}}[ty]()
+    """document values; every falsy value of the type occurs often"""
+    falsy = r.random() < 0.4
+    return {'int': lambda: 0 if falsy else r.randint(1, 99), 'str': lambda: '' if falsy else r.choice(['a', 'hello']),
+            'ints': lambda: [] if falsy else [r.randint(0, 9)], 'dict': lambda: {} if falsy else {'k': r.randint(0, 9)},
+            'float': lambda: 0.0 if falsy else r.choice([2.5, 7.25]), 'bool': lambda: False if falsy else True,
+            'any': lambda: [r.randint(0, 9)], 'inst': lambda: {'k': r.randint(2, 9)}}[ty]()
 
 
 def path_complete(r, spec):
+    """what a producer writes: a key for every field, init=False ones (mostly) included"""
     doc = {}
     for f in spec['fields']:
+        if not f['init'] and r.random() < 0.3:
+            continue
         if f['path']:
             doc.setdefault(f['path'][0], {})[f['path'][1]] = path_value(r, f['ty'])
+        elif f['aliases']:
+            doc[r.choice(f['aliases'])] = path_value(r, f['ty'])
         else:
             doc[f['name']] = path_value(r, f['ty'])
     return doc
@@ -464,10 +482,22 @@ def path_positions(spec, doc):
     return pos
 
 
-def path_present(f, doc):
+def path_lookup(f, doc):
+    """(found, value) of an init field in a document"""
+    if not f['init']:
+        return False, None
     if f['path']:
-        return f['path'][0] in doc and f['path'][1] in doc[f['path'][0]]
-    return f['name'] in doc
+        if isinstance(doc.get(f['path'][0]), dict) and f['path'][1] in doc[f['path'][0]]:
+            return True, doc[f['path'][0]][f['path'][1]]
+        return False, None
+    for k in (f['aliases'] or [f['name']]):
+        if k in doc:
+            return True, doc[k]
+    return False, None
+
+
+def path_present(f, doc):
+    return path_lookup(f, doc)[0]
 
 
 def path_canon(ty, v):
@@ -475,6 +505,10 @@ def path_canon(ty, v):
         return {'int': str(v)}
     if ty == 'str':
         return {'str': v}
+    if ty == 'float':
+        return {'float': float(v).hex()}
+    if ty == 'bool':
+        return {'bool': v}
     if ty in ('ints', 'any'):
         return {'list': [{'int': str(x)} for x in v]}
     if ty == 'dict':
@@ -486,13 +520,13 @@ PATH_DEFAULT = {'ints': {'list': []}, 'any': {'list': []}, 'dict': {'dict': []},
 
 
 def path_expected(spec, doc):
-    missing = [f['name'] for f in spec['fields'] if f['dflt'] == 'req' and not path_present(f, doc)]
+    missing = [f['name'] for f in spec['fields'] if f['init'] and f['dflt'] == 'req' and not path_present(f, doc)]
     if missing:
         return None, missing
     view = {}
     for f in spec['fields']:
-        if path_present(f, doc):
-            v = doc[f['path'][0]][f['path'][1]] if f['path'] else doc[f['name']]
+        found, v = path_lookup(f, doc)
+        if found:
             view[f['name']] = path_canon(f['ty'], v)
         elif f['dflt'] == 'def':
             view[f['name']] = path_canon(f['ty'], f['default'])
@@ -540,7 +574,7 @@ def path_predicate(spec, doc, res):
 
 def build_path_cases(ctx):
     r = ctx.sub_rng('paths')
-    n = 24 if ctx.tier == 'quick' else 240
+    n = 40 if ctx.tier == 'quick' else 300
     counter = [0]
     out = []
     for _ in range(n):
@@ -712,7 +746,8 @@ def run(ctx):
     idx = 0
     for c in pcases:
         for f in c['spec']['fields']:
-            ctx.hist('path_field', '%s/%s/%s' % ('path' if f['path'] else 'plain', f['ty'], f['dflt']))
+            ctx.hist('path_field', '%s/%s/%s%s' % ('path' if f['path'] else ('alias%d' % len(f['aliases']) if f['aliases'] else 'plain'),
+                                                     f['ty'], f['dflt'], '' if f['init'] else '/noinit'))
         for e in engines:
             results = impl['pathclasses'][idx]
             idx += 1
